@@ -38,7 +38,8 @@ CLAIM = {
             "(C13_wrapper_reraises shows the wrappers do not give it). Trusted: Coq kernel, translator (syntactic site "
             "audit: dominance is approximated by 'earlier statement of an enclosing block'; five helper bodies are pinned "
             "by hash and were reviewed by hand), extraction, harness. Known findings: stack exhaustion on deep nesting "
-            "(no nesting limit), ParseExprEx returns an unsorted list.",
+            "(no nesting limit), ParseExprEx returns an unsorted list, panics on `go ()` / `defer ()` (tuple after go/defer) and on labels "
+            "inside a lambda block outside a function body.",
 }
 
 JUNK = [")", "]", ",", ":", ".", "=", ":=", "...", "=>", "?", "%", "/", "==", "!=", "<", ">", "<=", ">=", "&&", "||",
@@ -214,8 +215,10 @@ def run(ctx):
                   rule="oracle: deterministic set (%d: crafted inputs, every corpus file under 2 mode sets, every token-boundary prefix of %d small "
                        "corpus files) + %d seeded cases (token-level mutation of corpus files, byte mutation, splice, token soup, random bytes) over "
                        "ParseFile / ParseEntry(9 file-name kinds) / ParseExprFrom / ParseExprEx and random subsets of all mode flags (Trace on a few small "
-                       "inputs); no input class excluded; non-trivial = distinct (source, entry) with >= 8 bytes or >= 1 error" %
-                       (doc["deterministic"], doc["prefix_files"], doc["seeded"]),
+                       "inputs); seeded inputs are rewritten out of a dimension only while its deterministic witness still fails in this run "
+                       "(`go (`/`defer (`: %s; lambda block `=> {`: %s; %d inputs rewritten); sortedness of ParseExprEx is judged on the deterministic "
+                       "witnesses only; non-trivial = distinct (source, entry) with >= 8 bytes or >= 1 error" %
+                       (doc["deterministic"], doc["prefix_files"], doc["seeded"], doc.get("exclude_go_tuple"), doc.get("exclude_lambda_block"), doc.get("sanitized", 0)),
                   fuzz_by_generator=doc["by_gen"], fuzz_by_entry=doc["by_entry"], fuzz_by_outcome=doc["by_outcome"],
                   fuzz_modes_distinct=doc["modes_distinct"], fuzz_errors_per_case=doc["errors_per_case"], fuzz_input_size=doc["size"],
                   fuzz_corpus_files=doc["corpus_files"], exprex_unsorted_seen=doc["exprex_unsorted"], walk_notes=doc.get("walk_notes") or [],
